@@ -415,7 +415,7 @@ def transport_model():
     return [("*.is_closing", lambda px, t, a, k, fr: False)]
 
 
-@rule("R03.8", ["C03", "C11", "C01"], "T-FUN", floor=100)
+@rule("R03.8", ["C03", "C11", "C01", "C04"], "T-FUN", floor=100)
 def r03_8(ctx):
     """_write_frame emits bytes(prefix) ++ STUFF(frame.to_bytes()) ++ FLAG: stuffing covers control byte, payload
     and CRC (checked for every ACK/NAK, every DATA header with reserved-rich payloads); send_reset emits
@@ -970,6 +970,7 @@ def _streams(ctx):
         "escape-then-flag": b"\x83\x7d" + F + ack + F,
         "escape-then-xon": data.replace(b"\x7d", b"\x7d\x11") + F + ack + F,
         "lone-escape-frame": b"\x7d" + F + ack + F,
+        "junk-glued-to-rstack": b"ABC" + rstack + F + ack + F,
         "two-frames": F + data + F + ack + F,
         "cancel-then-frames": b"junk\x1a" + rstack + F + data + F,
         "substitute-mid-frame": data[:5] + b"\x18" + data[5:] + F + ack + F,
@@ -996,7 +997,7 @@ def _frame_fields(o):
     return out
 
 
-@rule("R02.5", ["C02", "C04", "C01", "C11", "C09"], "T-FUN", floor=60)
+@rule("R02.5", ["C02", "C04", "C01", "C11", "C09", "C03"], "T-FUN", floor=60)
 def r02_5(ctx):
     """Streams and chunkings against a reference receiver written from the specification: curated byte streams covering
     every reserved-byte situation (back-to-back frames, CANCEL before a frame, SUBSTITUTE inside a frame, bad CRC, invalid
@@ -1101,6 +1102,114 @@ def r02_5(ctx):
             else:
                 ctx.ok(1, (name, cut))
     ctx.sample({"streams": {k: v.hex() if len(v) < 80 else f"{len(v)} bytes" for k, v in _streams(ctx).items()}})
+
+
+@rule("R02.6", ["C02", "C04", "C01", "C11"], "T-FUN", floor=30)
+def r02_6(ctx):
+    """The whole receive pipeline against a reference receiver *with state*: byte streams that mix in-sequence, repeated
+    and out-of-sequence DATA frames, RSTACK, ERROR, ACK frames and unparsable frames are pushed through data_received ->
+    frame_received -> the frame handlers of one protocol object (expected number 2 at the start), whole and split into two
+    reads at every position (quick tier: a spread); the sequence of upward calls (payloads, reset codes) and the sequence of
+    frames written back (ACK / NAK with their numbers, CANCEL-prefixed NAK for unparsable frames) must be exactly those of
+    a receiver written from the specification - in particular a frame that follows an RSTACK in the same read is still
+    decoded, numbering restarts at zero, and a repeated frame is acknowledged but not delivered again."""
+    anchor_attrs(ctx, "AshProtocol", "_buffer", "_rx_seq", "_ezsp_protocol", "_transport")
+    repo = ctx.repo
+    f = repo.func(RECV)
+    ctx.fn(f)
+    cls = ash_cls(ctx)
+    ns = repo.cls(ASH, "NcpState").members()
+    st = lambda body: spec_stuff(spec_with_crc(body))
+    F = b"\x7e"
+    pay = [bytes([0x10 + i, 0x7E, i]) for i in range(6)]
+    D = lambda frm, retx, ack, p: st(spec_data(frm, retx, ack, p)[:-2])
+    rstack, error, ackf = st(bytes([0xC1, 0x02, 0x0B])), st(bytes([0xC2, 0x02, 0x51])), st(bytes([0x85]))
+    streams = {
+        "data-rstack-data": D(2, 0, 5, pay[0]) + F + rstack + F + D(0, 0, 0, pay[1]) + F + D(0, 1, 0, pay[1]) + F + D(3, 0, 0, pay[2]) + F + D(1, 0, 0, pay[3]) + F,
+        "acks-and-garbage-between": ackf + F + D(2, 0, 1, pay[0]) + F + b"\x83\x12\x34" + F + D(3, 0, 1, pay[1]) + F + ackf + F + D(3, 1, 1, pay[1]) + F,
+        "error-rstack-data": error + F + b"\x1a" + rstack + F + D(0, 0, 0, pay[4]) + F + D(1, 0, 0, pay[5]) + F,
+        "wraparound": b"".join(D((2 + i) % 8, 0, 0, bytes([i])) + F for i in range(9)),
+    }
+
+    def reference(stream):
+        rx, ups, writes = 2, [], []
+        ack = lambda n: st(bytes([0x80 | n])) + F
+        nak = lambda n: st(bytes([0xA0 | n])) + F
+        for ev in ref_receive(stream):
+            if ev == ("nak",):
+                writes.append(b"\x1a" + nak(rx))
+                continue
+            _, cn, fl = ev
+            if cn == "DataFrame":
+                if fl["frm_num"] == rx:
+                    rx = (rx + 1) % 8
+                    writes.append(ack(rx))
+                    ups.append(("data_received", fl["ezsp_frame"]))
+                elif fl["re_tx"]:
+                    writes.append(ack(rx))
+                else:
+                    writes.append(nak(rx))
+            elif cn == "RStackFrame":
+                rx = 0
+                ups.append(("reset_received", fl["reset_code"]))
+            elif cn == "ErrorFrame":
+                ups.append(("reset_received", fl["reset_code"]))
+        return ups, writes
+
+    px = PX(repo, inline=lambda g, aw: not g.is_async, max_depth=10, max_paths=4,
+            models=[("binascii.crc_hqx", crc_model), ("self._transport.is_closing", lambda px_, t, a, k, fr: False),
+                    ("self._transport.write", Outcomes(OK(None))), ("*.isEnabledFor", lambda px_, t, a, k, fr: False),
+                    ("self._ezsp_protocol.data_received", Outcomes(OK(None))), ("self._ezsp_protocol.reset_received", Outcomes(OK(None)))])
+    thorough = ctx.run.tier == "thorough"
+    for name, stream in streams.items():
+        want_up, want_wr = reference(stream)
+        n = len(stream)
+        cuts = [()] + ([(i,) for i in range(1, n)] if thorough else [(i,) for i in sorted(set(list(range(1, n, max(1, n // 8))) + [n - 1]))])
+        for cut in cuts:
+            bounds = [0] + list(cut) + [n]
+            chunks = [stream[a:b] for a, b in zip(bounds, bounds[1:])]
+
+            def entry():
+                me = self_obj(cls, {"_buffer": bytearray(), "_discarding_until_next_flag": False, "_rx_seq": 2, "_tx_seq": 5, "_pending_data_frames": {},
+                                    "_ncp_state": ns["CONNECTED"], "_ncp_reset_code": None, "_t_rx_ack": 1.6,
+                                    "_transport": Obj(TypeRef("Transport"), {}, tag="self._transport"),
+                                    "_ezsp_protocol": Obj(TypeRef("Gateway"), {}, tag="self._ezsp_protocol")})
+                px.top_frame = None
+                for ch in chunks:
+                    px.call_function(f, me, [bytes(ch)], {}, None)
+                return None
+
+            paths = px._run(entry)
+            ctx.case(1)
+            if len(paths) != 1:
+                raise AnalysisError(f"receive pipeline on the concrete stream '{name}' split at {cut}: {len(paths)} paths")
+            p = paths[0]
+            ups, wrs = [], []
+            for e in p.events:
+                if e.kind != "call":
+                    continue
+                if e.what in ("self._ezsp_protocol.data_received", "self._ezsp_protocol.reset_received"):
+                    a0 = e.args[0] if e.args else None
+                    val = bytes(a0) if isinstance(a0, (bytes, bytearray)) else (int(getattr(a0, "value", a0)) if isinstance(getattr(a0, "value", a0), int) else repr(a0)[:40])
+                    ups.append((e.what.rsplit(".", 1)[1], val))
+                elif e.what == "self._transport.write":
+                    a0 = e.args[0] if e.args else None
+                    wrs.append(bytes(a0) if isinstance(a0, (bytes, bytearray)) else repr(a0)[:40])
+            key = f"pipeline:{name}"
+            if p.terminal != "return":
+                ctx.violation(key, f"stream '{name}' split at {list(cut)}: {p.value!r} escapes the receive callback", func=f, trace=p.trace(40), construct=name)
+            elif ups != want_up:
+                i = next((k for k, (a, b) in enumerate(zip(ups, want_up)) if a != b), min(len(ups), len(want_up)))
+                ctx.violation(key + ":upward", f"stream '{name}' split into reads at {list(cut)}: upward call #{i} is {ups[i] if i < len(ups) else 'missing'!r:.80}, the "
+                              f"reference receiver gives {want_up[i] if i < len(want_up) else 'nothing more'!r:.80} ({len(ups)} calls vs {len(want_up)})", func=f,
+                              trace=p.trace(40), construct=name)
+            elif wrs != want_wr:
+                i = next((k for k, (a, b) in enumerate(zip(wrs, want_wr)) if a != b), min(len(wrs), len(want_wr)))
+                ctx.violation(key + ":answers", f"stream '{name}' split into reads at {list(cut)}: frame #{i} written back is "
+                              f"{wrs[i].hex() if i < len(wrs) and isinstance(wrs[i], bytes) else 'missing'}, the reference receiver writes "
+                              f"{want_wr[i].hex() if i < len(want_wr) else 'nothing more'} ({len(wrs)} writes vs {len(want_wr)})", func=f, trace=p.trace(40), construct=name)
+            else:
+                ctx.ok(1, (name, cut))
 
 
 @rule("R03.9", ["C03", "C10", "C11", "C04", "C02"], "T-FUN", floor=512)
